@@ -52,6 +52,9 @@ def scan_function(crate, fn):
     hits = []
     e = Engine(crate, max_depth=1)
     def vh(v, loc, facts):
+        if loc[0] == fn and v[0] == 'call' and isinstance(v[1], str) and v[1].rsplit("::", 1)[-1] == 'acos' and "f64" in v[1] and len(v[2]) == 1 and trigpoly(v[2][0]):
+            # acos of a cosine assembled from sines and cosines (a dot product): quantised to 0, 1.5e-8, 2.1e-8 .. rad
+            hits.append((loc, v, frozenset(facts))); return
         if loc[0] != fn or v[0] != 'op' or v[2] != 'f64' or v[1] not in ('sub', 'add'): return
         a, b = v[3], v[4]
         other = b if is_one(a) else (a if is_one(b) else None)
@@ -64,6 +67,10 @@ def scan_function(crate, fn):
         e.run(fn)
     except Exception:
         return None
+    # calls are terminators, not assigned rvalues: look at the recorded call sites of acos
+    for ev in e.events.values():
+        if len(ev.site) == 2 and ev.callee and ev.callee.rsplit("::", 1)[-1] == 'acos' and "f64" in ev.callee and ev.args and trigpoly(ev.args[0]):
+            hits.append(((fn, ev.site[-1][1], ev.at, None), ('call', ev.callee, (ev.args[0],)), frozenset(ev.facts)))
     return hits
 
 
@@ -102,8 +109,9 @@ def check(ctx, crate, roots, clause="no-cancelling-1-minus-trig", floor=None):
     ctx.functions |= set(fns)
     for fn, at, tv in bad:
         ctx.report(clause, "%s:%s" % (fn, tv[:60]), False,
-                   "%s computes %s: the constant 1 combined with a trigonometric value cancels catastrophically where that value reaches +-1 (tiny distances / the poles); the repository's half-angle forms do not" % (fn, tv), at=at, kind="N")
-    ctx.report(clause, "scan", not bad and not failed, "%d functions reachable from %s scanned, no `1 -/+ trig(..)` form" % (n, sorted(roots)[:4]) if not bad else "%d cancelling forms" % len(bad), kind="N",
+                   ("%s computes %s: the arc cosine of a cosine assembled from sines and cosines can only take the values acos(1 - k*1.1e-16) = 0, 1.5e-8, 2.1e-8, .. rad for small angles (use atan2(|cross|, dot) or the haversine)" % (fn, tv)) if "acos(" in tv else
+                   ("%s computes %s: the constant 1 combined with a trigonometric value cancels catastrophically where that value reaches +-1 (tiny distances / the poles); the repository's half-angle forms do not" % (fn, tv)), at=at, kind="N")
+    ctx.report(clause, "scan", not bad and not failed, "%d functions reachable from %s scanned, no `1 -/+ trig(..)` and no `acos(trig polynomial)` form" % (n, sorted(roots)[:4]) if not bad else "%d cancelling forms" % len(bad), kind="N",
                sample={"functions": n, "not_analysed": failed[:5]})
     if floor is not None: ctx.floor(clause + "-functions", n, floor)
     from rules import controls
